@@ -197,14 +197,17 @@ var (
 	optionals   = []string{"", "", "", "true", "false"}
 	propNames   = []string{"v.a", "v.b", "ver.c", "dep.d.version", "e.version", "vf"}
 
-	jdkSpecs = []string{"11", "11.0", "11.0.8", "1.8", "17", "12", "10", "[1.8,)", "[11,12)", "[1.8,11)", "(,11]", "[11.0.8,)", "[12,)", "(11,)", "(1.8,17]", "[9,11.0.8]"}
-	osSpecs  = []OS{
+	jdkSpecs = []string{"11", "11.0", "11.0.8", "1.8", "17", "12", "10", "11", "1.8", "11.0", "11.0.9", "1.1", "[1.8,)", "[11,12)", "[1.8,11)", "(,11]", "[11.0.8,)", "[12,)", "(11,)", "(1.8,17]", "[9,11.0.8]"}
+	// Shapes of open findings, generated rarely.
+	jdkRare = []string{"11.0.1", "1", "!1.8", "!11", "!17", "11.0.7", "!11.0.8"}
+	osRare  = []OS{{Family: "linux"}, {Family: "!linux"}, {Family: "Linux", Arch: "amd64"}}
+	osSpecs = []OS{
 		{Name: "linux"}, {Name: "Linux"}, {Name: "windows"}, {Name: "!windows"}, {Name: "!linux"},
 		{Family: "unix"}, {Family: "windows"}, {Family: "!windows"}, {Family: "mac"}, {Family: "!unix"}, {Family: "Unix"},
 		{Arch: "amd64"}, {Arch: "!amd64"}, {Arch: "aarch64"}, {Arch: "x86"}, {Arch: "AMD64"},
 		{Version: "5.10.0-26-cloud-amd64"}, {Version: "!5.10.0-26-cloud-amd64"}, {Version: "4.19.0"},
 		{Family: "unix", Arch: "amd64"}, {Family: "unix", Name: "linux", Arch: "amd64"}, {Family: "unix", Arch: "aarch64"}, {Name: "linux", Version: "!4.19.0"},
-		{Family: "!mac", Name: "!windows"},
+		{Family: "!mac", Name: "!windows"}, {Family: "dos"}, {Family: "!dos"},
 	}
 )
 
@@ -280,7 +283,7 @@ func Generate(rng *rand.Rand, opt Opts) *Lineage {
 			g.fillDeps(b, nil, true)
 		}
 	}
-	if !opt.NoDupInFile && rng.Intn(4) == 0 {
+	if !opt.NoDupInFile && rng.Intn(8) == 0 {
 		g.addDuplicate(root, boms)
 	}
 	for t := range g.feat {
@@ -344,7 +347,7 @@ func (g *genState) newChain(group, name string, depth int, bom bool) *chain {
 func (g *genState) builtin(c *chain) string {
 	bs := []string{"${project.version}", "${project.version}", "${project.groupId}", "${pom.version}", "${version}", "${pom.groupId}", "${groupId}"}
 	// Inside a BOM chain parent.* is generated rarely: it is the shape of an open finding.
-	if c.hasPar && (!c.bom || g.rng.Intn(8) == 0) {
+	if c.hasPar && (!c.bom || g.rng.Intn(12) == 0) {
 		if c.bom {
 			g.tag("bom:parent-builtin")
 		}
@@ -402,6 +405,15 @@ func (g *genState) newProfile(c *chain, fileIdx int) *Profile {
 			pr.Default = pick(rng, []string{"true", "false"})
 		}
 		g.tag("profile:combined")
+	}
+	if pr.JDK != "" && rng.Intn(40) == 0 {
+		pr.JDK = pick(rng, jdkRare)
+		g.tag("profile:jdk-rare")
+	}
+	if pr.OS != nil && rng.Intn(30) == 0 {
+		o := osRare[rng.Intn(len(osRare))]
+		pr.OS = &o
+		g.tag("profile:os-rare")
 	}
 	p.Profiles = append(p.Profiles, pr)
 	return &p.Profiles[len(p.Profiles)-1]
